@@ -338,7 +338,11 @@ func lexComment(l *lexer) stateFn {
 		return lexEOF
 	}
 
-	for unicode.IsSpace(rune(l.input[l.pos+i-1])) {
+	// Trim trailing blanks only: they are skipped by the state we return to.
+	// (Testing each byte with unicode.IsSpace also cut off form feeds,
+	// vertical tabs and the last byte of characters such as 'à' or 'Å',
+	// which were then lexed as if they were outside the comment.)
+	for l.input[l.pos+i-1] == ' ' || l.input[l.pos+i-1] == '\t' || l.input[l.pos+i-1] == '\r' {
 		i -= 1
 	}
 	l.pos += i
